@@ -86,6 +86,7 @@ fn main() {
         "child-dtor" => std::process::exit(fam_path::child_dtor(a[2].parse().unwrap())),
         "child-threads" => std::process::exit(fam_path::child_threads(a[2].parse().unwrap(), a[3].parse().unwrap())),
         "shrink" => std::process::exit(props::shrink(&a[2])),
+        "ctrl" => std::process::exit(props::ctrl_debug(&a[2], a[3].parse().unwrap())),
         "selftest" => std::process::exit(props::selftest()),
         _ => usage(),
     }
